@@ -14,10 +14,12 @@ LEVEL = "exploration"
 PROPS = ["C17"]
 
 SVC_NAMES = ["login.svc", "drone.svc", "ipr.svc", "combo.svc", "Alpha.Net"]
+# protocols as written in the file: the four known ones (also in another letter case) and one the module does not know
+PROTOS_X = list(proto.PROTOS) * 3 + ["LOGIN", "DroneCheck", "nonsense"]
 
 
 def gen_config(rng):
-    svcs = [(n, rng.choice(proto.PROTOS)) for n in rng.sample(SVC_NAMES, rng.choice([0, 1, 2, 3]))]
+    svcs = [(n, rng.choice(PROTOS_X)) for n in rng.sample(SVC_NAMES, rng.choice([0, 1, 2, 3]))]
     rules = c11.gen_rules(rng) if rng.random() < 0.8 else []
     for r in rules:
         if "xreply_ok" in r:
@@ -44,7 +46,7 @@ def edit(rng, svcs, rules):
             free = [n for n in SVC_NAMES if n not in [x[0] for x in svcs]]
             if not free:
                 continue
-            svcs.append((rng.choice(free), rng.choice(proto.PROTOS)))
+            svcs.append((rng.choice(free), rng.choice(PROTOS_X)))
         elif k == "svc-remove":
             if not svcs:
                 continue
@@ -53,7 +55,7 @@ def edit(rng, svcs, rules):
             if not svcs:
                 continue
             i = rng.randrange(len(svcs))
-            svcs[i] = (svcs[i][0], rng.choice([p for p in proto.PROTOS if p != svcs[i][1]]))
+            svcs[i] = (svcs[i][0], rng.choice([p for p in PROTOS_X if p != svcs[i][1]]))
         elif k == "rule-add":
             new = c11.gen_rules(rng)
             new = [r for r in new if r["name"].lower() not in [x["name"].lower() for x in rules]]
@@ -125,8 +127,9 @@ def directed_chain(rng, kind, svcs, rules):
     rng.shuffle(names)
     a, b, c = names[:3]
     pa, pb, pc = (rng.choice(proto.PROTOS) for _ in range(3))
+    rules = [r for r in rules if "_plain" not in r]
     if not rules:
-        rules = c11.gen_rules(rng)
+        rules = [r for r in c11.gen_rules(rng) if "_plain" not in r]
     r0 = copy.deepcopy(rules)
     if kind == "svc-remove-then-add":
         steps = [[(a, pa), (b, pb)], [(b, pb)], [(b, pb), (c, pc)]]
